@@ -1275,8 +1275,16 @@ class BuilderSim:
         a.nodes.append(b.parent_node)
         a.dep_local(ws, b.parent_node.idx)
 
+        if self.ctx.ch.coin(1, 3, "builder-used-as-a-node-early"):
+            # the builder object is itself a node handle (ToNode): it is used as one before its outputs are set ...
+            b.to_node()
+            b.out(0)
+            self.ctx.probe("builder_used_as_node_before_set_outputs")
+
         def closed(child, out_tys):
             self.handle(child.b.parent_node, len(out_tys), "nested-dfg-closed")
+            # ... and again afterwards, when it must know its outputs like the handle the parent holds
+            self.handle(child.b.to_node(), len(out_tys), "nested-dfg-builder-as-node")
             a.add_out(child.b.parent_node, out_tys)
         na = Actor(self, "dfg", b, [w.ty for w in ws], a, a.func_root, on_close=closed)
         na.region_node_idx = b.parent_node.idx
